@@ -98,7 +98,7 @@ func b2(b bool) string {
 }
 
 func (c admitCase) op() string {
-	return fmt.Sprintf("admit %s %s %s %d %s %s %s %s %s %d %d %d %s %s %d %d %s %d %s %s %s %s %d %d",
+	return fmt.Sprintf("admission %s %s %s %d %s %s %s %s %s %d %d %d %s %s %d %d %s %d %s %s %s %s %d %d",
 		b2(c.allowNew), b2(c.btcOn), b2(c.lbtcOn), c.minMsat, b2(c.acceptAll), b2(c.allowlisted), b2(c.suspicious),
 		hexs(lbtcAsset), hexs("regtest"), c.rateBtc, c.rateLbtc, c.spendable, b2(c.probeOk), b2(c.busy), c.balance, c.fee,
 		b2(c.swapOut), c.version, hexs(c.asset), hexs(c.network), hexs(c.scid), hexs(c.pub), c.amount, c.limit) +
